@@ -9,7 +9,7 @@ RULE = ("accepted connected catalogue/random graphs with 1..3 (quick) / 1..5 (th
         "random spanning tree AND a random unimodular change of basis (entries of magnitude >=2 included) with edge re-orientations "
         "and loop-momentum offsets, points uniform / corner / coordinate one ulp below 1; non-trivial: L>=2 and non-fundamental "
         "basis or flipped edge; distinct = graph+signature+point")
-ASSUMPTIONS = ["tolerance 100 L^2 eps cond_inf(L) relative, cond computed exactly from the implementation's Feynman parameters"]
+ASSUMPTIONS = ["tolerance 100 L^2 eps min(cond_inf(L), cond_inf(D^-1 L D^-1)) relative (D = diag(L)^(1/2) rounded to powers of two), computed exactly from the implementation's Feynman parameters"]
 
 
 def run(ctx):
@@ -49,7 +49,10 @@ def run(ctx):
                 if abs(lm[i][j] - ex["L"][i][j]) > 4 * (len(x) + 1) * SC.EPS * scale:
                     ctx.violation(f"L[{i}][{j}] differs from sum_e x_e s_ei s_ej", S.small_req(s), expected=float(ex["L"][i][j]), observed=float(lm[i][j])); break
         sy = kin.symanzik(c["edges"], x, r["ext_mom"], r["masses"], c["D"])
-        tol = SC.tol_cond(nl, ex["cond"])
+        # the determinant of an SPD matrix by Cholesky is accurate relative to the condition number of the SCALED matrix
+        # (graded L matrices - hierarchical Feynman parameters - have huge cond(L) but modest scaled condition)
+        tol = SC.tol_cond(nl, min(ex["cond"], ex["cond_s"]))
+        ctx.count("cond_scaled<cond/1e3" if ex["cond_s"] * 1000 < ex["cond"] else "cond_scaled~cond")
         if tol > Fraction(1, 1000):
             ctx.count("cancellation_dominates(cond)_skipped"); continue
         u = Fraction(b2f(a["u"]))
